@@ -349,7 +349,7 @@ NoPartialResult == Returned => (bad = {} /\ \A c \in Children : exit[c] = "ok")
 \* without a fault the call returns
 RaiseOnlyOnFault == pc[0] = "raised" => faults > 0
 \* a failing call leaves no running worker behind
-NoOrphans == (pc[0] = "raised" /\ KillChildren) => \A c \in 1..nfork : pc[c] = "dead"
+NoOrphans == pc[0] = "raised" => \A c \in 1..nfork : pc[c] = "dead"
 
 \* the call comes to an end (checked with KillInCS = FALSE)
 Terminates == <>Terminal
